@@ -179,15 +179,43 @@ fn lexer_tuple_order(m: &Model, ctx: &mut Ctx) {
     }
     if let Some(f) = anchor_fn(m, ctx, "C05.order", None, "enumerated_body", Some("lexer")) {
         ctx.oblige("C05.order", "enumerated_body", true);
-        let b = tok(&f.block);
-        let p1 = b.find("root_enumerals)=enumerals(0)");
-        let p2 = b.find("extension_marker");
-        let p3 = b.find("opt(enumerals(root_enumerals.len()))");
-        let p4 = b.find("Ok((input,(root_enumerals,ext_marker,ext_enumerals)))");
-        let ok = matches!((p1, p2, p3, p4), (Some(a), Some(b2), Some(c), Some(d)) if a < b2 && b2 < c && c < d);
+        // `let (input, <var>) = <parser>.parse(input)?;` statements in source order
+        struct L {
+            out: Vec<(String, String)>,
+            ret: Vec<String>,
+        }
+        impl model::DeepCb for L {
+            fn local(&mut self, l: &syn::Local) {
+                if let (syn::Pat::Tuple(pt), Some(init)) = (&l.pat, &l.init) {
+                    if pt.elems.len() == 2 && tok(&pt.elems[0]) == "input" {
+                        self.out.push((tok(&pt.elems[1]), tok(&init.expr)));
+                    }
+                }
+            }
+            fn expr(&mut self, e: &syn::Expr) {
+                if let syn::Expr::Call(c) = e {
+                    if tok(&c.func) == "Ok" {
+                        if let Some(syn::Expr::Tuple(t)) = c.args.first() {
+                            if t.elems.len() == 2 && tok(&t.elems[0]) == "input" {
+                                if let syn::Expr::Tuple(inner) = &t.elems[1] {
+                                    self.ret = inner.elems.iter().map(|x| tok(x)).collect();
+                                }
+                            }
+                        }
+                    }
+                }
+            }
+        }
+        let mut l = L { out: vec![], ret: vec![] };
+        model::deep_walk_block(&f.block, &mut l);
+        let numbering: Vec<String> = m.fns.iter().filter(|g| g.module.ends_with("lexer::enumerated") && tok(&g.block).contains("Enumeral{")).map(|g| g.name.clone()).collect();
+        let is_list = |init: &str| numbering.iter().any(|n| init.contains(&format!("{}(", n)));
+        let shape: Vec<&str> = l.out.iter().map(|(_, init)| if init.contains("extension_marker") { "marker" } else if is_list(init) { "list" } else { "other" }).filter(|k| *k != "other").collect();
+        let vars: Vec<String> = l.out.iter().filter(|(_, init)| init.contains("extension_marker") || is_list(init)).map(|(v, _)| v.clone()).collect();
+        let ok = shape == ["list", "marker", "list"] && l.ret == vars;
         if !ok {
             ctx.violate("C05.order", "enumerated_body", &f.file, f.line,
-                "enumerated_body must parse root enumerals, then the optional marker, then the additions numbered from root_enumerals.len(), and return them in that order");
+                &format!("enumerated_body must parse root enumerals, then the optional marker, then the additions, and return them in that order; parsed {:?} bound to {:?}, returned {:?}", shape, vars, l.ret));
         }
     }
 }
